@@ -62,12 +62,21 @@ def resolve (default : Bool) (tagOpt : Trool) (levels : List (Option Trool)) : B
   | .no => (false, false)
   | .maybe => ((firstOnOff levels).getD default, false)
 
-/-- restriction under which the code follows the rule (KF-C19-a): no level says `auto`
-    explicitly while a level further out says on/off -/
-def noShadowingAuto : List (Option Trool) → Bool
+/-- restriction under which the code follows the rule (KF-C19-a), as weak as it can be: the
+    innermost level that MENTIONS the option either says on/off, or says `auto` and the on/off it
+    hides (the first one further out) is absent or equals the built-in default `b` anyway -/
+def noShadowingAuto (b : Bool) : List (Option Trool) → Bool
   | [] => true
-  | some .maybe :: rest => rest.all (fun x => x == none || x == some .maybe)
-  | _ :: rest => noShadowingAuto rest
+  | some .maybe :: rest => firstOnOff rest == none || firstOnOff rest == some b
+  | some _ :: _ => true
+  | none :: rest => noShadowingAuto b rest
+
+/-- THE "APPLIES" TABLE shared by the name / id / for / tabindex transforms (documentation:
+    "each tag has a set of sane default behaviors", a tag-level `on` forces): once the option
+    resolves to on, the attribute is generated iff it is forced, or the tag belongs to the
+    transform's own tags (`_auto_tags`) and the author did not give the attribute -/
+def applies (T : Tables) (attr tag : Str) (forced given : Bool) : Bool :=
+  forced || (!given && T.autoTag attr tag)
 
 /-- append writes to the innermost level -/
 def addLog (h : Hist) (xs : List (Str × CVal)) : Hist :=
